@@ -53,6 +53,47 @@ func hygieneFindings(it *pipeline.Item) []string {
 				imports[im.Name.Name] = true
 			}
 		}
+		// import names the generator introduced itself (paths no user file of the package
+		// imports): not a package-level name, not predeclared, not a keyword, pairwise distinct
+		userPaths := map[string]bool{}
+		for _, uf := range it.Files {
+			if strings.HasSuffix(fileOf(it, uf), "_band.go") {
+				continue
+			}
+			for _, im := range uf.Imports {
+				userPaths[strings.Trim(im.Path.Value, "\"")] = true
+			}
+		}
+		seenImp := map[string]string{}
+		for _, im := range f.Imports {
+			path := strings.Trim(im.Path.Value, "\"")
+			name := ""
+			if obj, ok := it.Info.Implicits[im].(*types.PkgName); ok {
+				name = obj.Name()
+			} else if im.Name != nil {
+				name = im.Name.Name
+			} else if obj, ok := it.Info.Defs[im.Name].(*types.PkgName); ok {
+				name = obj.Name()
+			}
+			if name == "" || name == "_" || name == "." {
+				continue
+			}
+			if prev, dup := seenImp[name]; dup && prev != path {
+				out = append(out, fmt.Sprintf("import name %q used for %s and %s", name, prev, path))
+			}
+			seenImp[name] = path
+			if userPaths[path] {
+				continue
+			}
+			switch {
+			case pkgNames[name]:
+				out = append(out, fmt.Sprintf("generated import %q of %s is a package-level identifier", name, path))
+			case types.Universe.Lookup(name) != nil:
+				out = append(out, fmt.Sprintf("generated import %q of %s is a predeclared identifier", name, path))
+			case goKeywords[name]:
+				out = append(out, fmt.Sprintf("generated import %q of %s is a keyword", name, path))
+			}
+		}
 		for _, d := range f.Decls {
 			fd, ok := d.(*ast.FuncDecl)
 			if !ok {
